@@ -8,7 +8,7 @@ import zlib
 
 from . import mc, tlc
 from .mc import Raw
-from .concretise import same_value, pool
+from .concretise import same_value, pool, shared_candidates
 from .tlaval import to_json, from_json
 from .props.c14 import py_value, py_filter
 
@@ -79,7 +79,7 @@ def make_data(rnd, rich):
     """key text -> value; rich: adversarial key texts and values from the faithful pool, incl. shared sub-objects"""
     if not rich:
         return {'k': {'value': rnd.randrange(1000)}}
-    vals = pool()
+    vals = pool() + shared_candidates()
     n = rnd.randrange(0, 5)
     data = {}
     shared = rnd.choice([[1, 2, {'s': 'hared'}], {'sh': [1, 2]}])
